@@ -166,7 +166,7 @@ func (e *vestEnv) observe(ctx sdk.Context) []*big.Int {
 					}
 				}
 				out = append(out, bi(parseName(p.Name, "pool")), bi(parseName(p.VestingType, "vt")),
-					bi(p.LockStart.UnixNano()), bi(p.LockEnd.UnixNano()),
+					nanosB(p.LockStart), nanosB(p.LockEnd),
 					p.InitiallyLocked.BigInt(), p.Withdrawn.BigInt(), p.Sent.BigInt(), bi(b2i(p.GenesisPool)), qw)
 			}
 		}
@@ -199,6 +199,12 @@ func b2i(b bool) int64 {
 }
 
 // ---------------------------------------------------------------- world printer ------------
+// nanosB: nanoseconds since the epoch without the int64 overflow of time.Time.UnixNano (instants after 2262-04-11)
+func nanosB(t time.Time) *big.Int {
+	r := new(big.Int).Mul(bi(t.Unix()), bi(1000000000))
+	return r.Add(r, bi(int64(t.Nanosecond())))
+}
+
 func coinsTerm(c sdk.Coins) string {
 	var xs []string
 	for _, coin := range c {
@@ -242,7 +248,7 @@ func (e *vestEnv) worldTerm(ctx sdk.Context, blocked []int) string {
 			var ps []string
 			for _, p := range avp.VestingPools {
 				ps = append(ps, fmt.Sprintf("{| p_name := %d; p_vtype := %d; p_lock_start := %s; p_lock_end := %s; p_locked := %s; p_withdrawn := %s; p_sent := %s; p_genesis := %s |}",
-					parseName(p.Name, "pool"), parseName(p.VestingType, "vt"), zI(p.LockStart.UnixNano()), zI(p.LockEnd.UnixNano()),
+					parseName(p.Name, "pool"), parseName(p.VestingType, "vt"), zB(nanosB(p.LockStart)), zB(nanosB(p.LockEnd)),
 					zB(p.InitiallyLocked.BigInt()), zB(p.Withdrawn.BigInt()), zB(p.Sent.BigInt()), zBool(p.GenesisPool)))
 			}
 			pools = append(pools, zPair(zI(int64(id)), zList(ps)))
@@ -615,6 +621,15 @@ func runVestCase(ta *TestApp, seed uint64, idx int, rep *Report, profile string)
 					}
 				}
 			}
+			// block times stay realistic: instants a few years ahead at most (a "permanent reserve" pool's lock end is never reached)
+			horizon := now.Add(20 * 365 * 24 * time.Hour)
+			var near []time.Time
+			for _, en := range ends {
+				if en.Before(horizon) {
+					near = append(near, en)
+				}
+			}
+			ends = near
 			if len(ends) > 0 && rng.Chance(65) {
 				en := ends[rng.Intn(len(ends))]
 				switch rng.Intn(4) {
@@ -653,6 +668,11 @@ func runVestCase(ta *TestApp, seed uint64, idx int, rep *Report, profile string)
 			dur := time.Duration(1 + rng.I64n(int64(300*time.Hour)))
 			if rng.Chance(8) {
 				dur = time.Duration(-rng.I64n(3))
+			}
+			if rng.Chance(4) {
+				// a "permanent reserve": a lock of 240-290 years, whose end lies beyond what fits into int64 nanoseconds
+				dur = time.Duration(240+rng.I64n(50)) * 365 * 24 * time.Hour
+				rep.Count("pool.lock_end_beyond_2262")
 			}
 			vt := int64(1 + rng.Intn(nVt))
 			if rng.Chance(8) {
@@ -764,11 +784,22 @@ func runVestCase(ta *TestApp, seed uint64, idx int, rep *Report, profile string)
 			if rng.Chance(5) {
 				en = st
 			}
+			// the message may list the coins in another order than the canonical one (basic validation accepts that; the handler sorts)
+			reversed := len(coins) >= 2 && rng.Chance(15)
+			if reversed {
+				rep.Count("create_va.coins_not_in_canonical_order")
+			}
 			op = vestOp{kind: "create_va", owner: from, to: to, coins: coins, start: st, end: en,
 				term: fmt.Sprintf("OCreateVA %s %s %s %s %s", zI(int64(from)), zI(int64(to)), coinsTerm(coins), zI(st), zI(en)),
 				run: func(c sdk.Context) (*big.Int, error) {
+					msgCoins := append(sdk.Coins{}, coins...)
+					if reversed {
+						for i, j := 0, len(msgCoins)-1; i < j; i, j = i+1, j-1 {
+							msgCoins[i], msgCoins[j] = msgCoins[j], msgCoins[i]
+						}
+					}
 					_, err := e.ms.CreateVestingAccount(sdk.WrapSDKContext(c), &vesttypes.MsgCreateVestingAccount{FromAddress: e.addrStr(from),
-						ToAddress: e.addrStr(to), Amount: coins, StartTime: st, EndTime: en})
+						ToAddress: e.addrStr(to), Amount: msgCoins, StartTime: st, EndTime: en})
 					return nil, err
 				}}
 		case 5: // split
